@@ -175,7 +175,7 @@ macro_rules! atomic {
                 assert!(count() == 0);
             }
             kani::cover!(ok && do_store);
-            kani::cover!(ok && !do_store && go > 0 && wo % SZ != 0);
+            kani::cover!(ok && !do_store && go > 0 && (SZ == 1 || wo % SZ != 0));
             kani::cover!(SZ == 1 || (!ok && fits && go % SZ == 0));
         }
     };
